@@ -610,6 +610,71 @@ fn storm(rep: &mut Rep, seed: u64, threads: usize, calls_per_thread: usize) {
     rep.countn("storm_calls", (threads * calls_per_thread) as u64);
 }
 
+// ---------------------------------------------------------------------------------------------
+// (2c) cold shared instance: the very first calls on a fresh instance arrive from many threads at once
+// ---------------------------------------------------------------------------------------------
+
+/// The shared-instance monitor answers every query sequentially first, which also warms up anything an instance
+/// initialises lazily. Here a fresh instance receives its first calls from `threads` threads released by a barrier;
+/// the expected answers come from a twin instance in the same (empty) state that was queried sequentially.
+fn cold_instances(rep: &mut Rep, sh: &Shared, n_instances: usize, threads: usize, seed: u64) {
+    let mk = || match catch(|| RLN::new(20, Cursor::new("{}".to_string()))) {
+        Ok(Ok(r)) => Some(r),
+        _ => None,
+    };
+    let Some(twin) = mk() else {
+        rep.inconclusive("RLN::new failed (cold-instance leg)".to_string());
+        return;
+    };
+    // tree-independent and empty-tree queries; the heavy witness calculation is left to the other legs
+    let qidx: Vec<usize> = (0..sh.queries.len()).filter(|i| !matches!(sh.queries[*i], Q::Witness(_))).collect();
+    let mut expected: Vec<Option<Vec<u8>>> = vec![None; sh.queries.len()];
+    for &qi in &qidx {
+        expected[qi] = run_q(&twin, &sh.queries[qi], false).ok();
+    }
+    let accepted: Vec<usize> = qidx.iter().cloned().filter(|qi| matches!(sh.queries[*qi], Q::Verify(_) | Q::VerifyRoots(..)) && expected[*qi] == Some(vec![1u8])).collect();
+    rep.note("cold_instance_queries_expected_true", json!(accepted.len()));
+    if accepted.is_empty() {
+        rep.inconclusive("cold-instance leg: no tree-independent query is accepted by the twin".to_string());
+        return;
+    }
+    for k in 0..n_instances {
+        let Some(r) = mk() else {
+            rep.inconclusive("RLN::new failed (cold-instance leg)".to_string());
+            return;
+        };
+        let barrier = Arc::new(Barrier::new(threads));
+        let via_ffi = k % 3 == 2;
+        par_shards(rep, threads, |t, rp| {
+            let mut rng = rng_for(seed, &format!("c18-cold-{k}-{t}"));
+            // first call: an accepted verification for most threads, any other query kind for the rest
+            let mut plan: Vec<usize> = vec![if t % 4 == 3 { qidx[rng.gen_range(0..qidx.len())] } else { accepted[(t + k) % accepted.len()] }];
+            for _ in 0..3 {
+                plan.push(qidx[rng.gen_range(0..qidx.len())]);
+            }
+            barrier.wait();
+            for (j, qi) in plan.iter().enumerate() {
+                let q = &sh.queries[*qi];
+                let got = run_q(&r, q, via_ffi);
+                rp.ev();
+                if j == 0 {
+                    rp.stratum(format!("cold-instance|first-call={}|ffi={via_ffi}", q.kind()));
+                }
+                match (got, &expected[*qi]) {
+                    (Ok(v), Some(e)) => {
+                        if &v != e {
+                            rp.violation(format!("cold-shared-instance{}:{}:differs-from-sequential", if via_ffi { "(ffi)" } else { "" }, q.kind()), json!({"instance": k, "thread": t, "call_no": j, "expected": hex_short(e), "got": hex_short(&v), "threads": threads}));
+                        }
+                    }
+                    (Err(e), _) => rp.violation(format!("cold-shared-instance{}:{}:panic", if via_ffi { "(ffi)" } else { "" }, q.kind()), json!({"instance": k, "thread": t, "error": e})),
+                    (Ok(_), None) => {}
+                }
+            }
+        });
+        rep.count("cold_instances");
+    }
+}
+
 /// `vh c18-firstuse <seed>`: fresh process; N threads make their first call simultaneously on a new instance
 pub fn firstuse_child(args: &[String]) -> i32 {
     let seed: u64 = args[2].parse().unwrap();
@@ -803,7 +868,7 @@ fn recreate_loop(rep: &mut Rep, seed: u64, cycles: usize) {
 }
 
 pub fn run(rep: &mut Rep, args: &[String]) {
-    rep.rule = "(1) the transcript (roots after 24 batch updates incl. rayon-parallel range writes on a persistent tree, serialized and graph witnesses, proof values, proof generation + verification verdicts, verdicts on a fixed corpus of valid/tampered/truncated messages) of separate processes with RAYON_NUM_THREADS in {1,2,4,16} must have the same SHA-256; (2) every read-only call kind (verify*, get_root/leaf/proof/subtree_root/empty indices/metadata, hash, poseidon_hash, seeded keygen, witness calculation, recover) issued concurrently by 2..64 threads on one shared instance, through &RLN and through *const RLN of the FFI, must return its sequential result; (2b) a storm of cheap pure calls (Poseidon through three entry points, hash-to-field, seeded key derivation) from 2..16 threads walking over the same few related inputs must return the from-spec reference values; fresh processes race the first use of the lazily initialised globals; (4) create-write-flush-drop-create cycles on one storage location. distinct_nontrivial = distinct (call kind x concurrently in-flight call kind) overlaps actually observed, pool sizes, recreate latency classes".into();
+    rep.rule = "(1) the transcript (roots after 24 batch updates incl. rayon-parallel range writes on a persistent tree, serialized and graph witnesses, proof values, proof generation + verification verdicts, verdicts on a fixed corpus of valid/tampered/truncated messages) of separate processes with RAYON_NUM_THREADS in {1,2,4,16} must have the same SHA-256; (2) every read-only call kind (verify*, get_root/leaf/proof/subtree_root/empty indices/metadata, hash, poseidon_hash, seeded keygen, witness calculation, recover) issued concurrently by 2..64 threads on one shared instance, through &RLN and through *const RLN of the FFI, must return its sequential result; (2b) a storm of cheap pure calls (Poseidon through three entry points, hash-to-field, seeded key derivation) from 2..16 threads walking over the same few related inputs must return the from-spec reference values; (2c) fresh instances receive their very first calls from 8 threads at once (no sequential warm-up) and must answer like a sequentially queried twin; fresh processes race the first use of the lazily initialised globals; (4) create-write-flush-drop-create cycles on one storage location. distinct_nontrivial = distinct (call kind x concurrently in-flight call kind) overlaps actually observed, pool sizes, recreate latency classes".into();
     rep.assumptions = vec!["schedules are sampled, not enumerated; a watchdog timeout is inconclusive, not a violation".into()];
     let thorough = rep.thorough();
     let seed = rep.seed;
@@ -820,6 +885,9 @@ pub fn run(rep: &mut Rep, args: &[String]) {
             for (threads, ffi) in [(2usize, false), (8, false), (16, true), (32, false), (64, false), (16, false)] {
                 hammer(rep, &sh, threads, per.max(8), seed, ffi, &format!("t{threads}{}", if ffi { "ffi" } else { "" }));
                 rep.stratum(format!("shared|threads={threads}|ffi={ffi}"));
+            }
+            if want("cold") || only.is_none() {
+                cold_instances(rep, &sh, if thorough { 60 } else { 8 } * scale.max(25) / 100, 8, seed);
             }
         }
     }
